@@ -11,7 +11,7 @@ import (
 
 // Run is the C08 check.
 func Run(c *core.Ctx) int {
-	n := c.N(24, 1200)
+	n := c.N(24, 800)
 	var mu sync.Mutex
 	programs, lines := 0, 0
 	distinct := map[string]bool{}
